@@ -112,6 +112,8 @@ type Step struct {
 	Entry  int       `json:"entry,omitempty"`   // 0 Run 1 RunWithExecution 2 Get 3 GetWithExecution, +4 = Async
 	CtxKey string    `json:"ctx_key,omitempty"` // "" none | "s:<key>" string key | "int" non-string key
 	Script []Outcome `json:"script,omitempty"`
+	// PreCancel: the caller's context is already cancelled when the execution starts
+	PreCancel bool `json:"pre_cancel,omitempty"`
 
 	Target int    `json:"target,omitempty"` // pool index for standalone ops
 	D      int64  `json:"d,omitempty"`      // advance
@@ -124,6 +126,9 @@ type Step struct {
 func (s Step) String() string {
 	switch s.Op {
 	case "exec":
+		if s.PreCancel {
+			return fmt.Sprintf("exec(entry=%d key=%q script=%v ctx-already-cancelled)", s.Entry, s.CtxKey, s.Script)
+		}
 		return fmt.Sprintf("exec(entry=%d key=%q script=%v)", s.Entry, s.CtxKey, s.Script)
 	case "advance":
 		return fmt.Sprintf("advance(%d)", s.D)
